@@ -70,25 +70,29 @@ PROPS["C17"] = dict(
 
 PROPS["C10"] = dict(
     engine="primsim", level="exploration",
-    quick=dict(runs=64000, workers=16),
-    thorough=dict(budget_s=600, workers=16),
+    quick=dict(runs=64000, workers=16, variants=["", "", "netsim:demux", ""]),
+    thorough=dict(budget_s=600, workers=16, variants=["", "netsim:demux"]),
     rule="one evaluation = (1) one seeded schedule of 2-4 tasks issuing ReservePort (specific and ephemeral), ReleasePort and IsPortAvailable over "
          "{IPv4,IPv6,both} x {TCP,UDP} x {wildcard,a,b} x 4 ports on one PortManager with schedule points before each lock and between check and insert, "
          "checked for linearizability against a sequential reservation-set model, plus (2) 2-12 PickEphemeralPort calls whose tester accepts one or two ports "
          "anywhere in [16000,65535] and whose starting offset is supplied by the simulator (boundary offsets 0, 16000+-1, 49534/5, uniform, and offsets whose "
          "search crosses 65536); non-trivial = the lock was contended or a probe's search crossed 65536; distinct = distinct hash of schedule and results",
-    expected_probes=["lock_contended", "probe_offset_crosses_65536", "ephemeral_reserve"],
-    real=["protocol/ports/ports.go"],
+    expected_probes=["lock_contended", "probe_offset_crosses_65536", "ephemeral_reserve", "bind_refused_on_conflict", "bind_succeeded",
+                     "closed_and_reopened_at_once", "wildcard_bound_then_connected"],
+    real=["protocol/ports/ports.go", "netsim:demux variant: protocol/transport/udp and tcp Bind/Listen/Connect/Close over the real stack"],
     stubs=PRIM_STUBS + ["math/rand draw of the ephemeral search offset: supplied by the simulator through the verif seam",
                         "sync.RWMutex blocking: a task about to acquire the manager's lock parks until a TryLock probe succeeds"],
-    assumptions=PRIM_ASSUME + ["socket-level Bind/Connect/Close paths that use the port manager are exercised by the netsim checks (C09, C11), not here"],
+    assumptions=PRIM_ASSUME + ["socket-level clause (variant netsim:demux, a quarter of the workers): the C09 world driven mostly with open/close/reopen of UDP sockets "
+                               "(wildcard/specific, connected, interface-bound) and TCP listeners; a Bind(+Listen) must fail iff an open socket holds a conflicting "
+                               "reservation, immediately after the Close of the previous holder returns; TCP active-open (Connect) reservations are not covered"],
     hang_is_violation=True,
     level_text="seeded exploration: concurrent reserve/release/availability histories checked with porcupine against a sequential model carrying the statement's "
                "conflict rule; the ephemeral search checked directly for every sampled (starting offset, acceptable port set); evidence, not proof",
     level_note="the model treats an ephemeral reservation's returned port as nondeterministic (any free port in range is legal) and its failure as illegal, "
                "since a few operations can never exhaust 49536 ports; histories are at most 60 operations",
     technique="deterministic simulation: seeded controlled scheduler over the real PortManager, porcupine linearizability check of the recorded history, "
-              "simulator-chosen starting offsets for the ephemeral search",
+              "simulator-chosen starting offsets for the ephemeral search; seeded socket open/close/reopen histories over the real stack against a "
+              "reservation-set reference",
 )
 
 PROPS["C08"] = dict(
@@ -303,13 +307,22 @@ PROPS["C09"] = dict(
     thorough=dict(budget_s=900, workers=16, stall_s=300),
     rule="one evaluation = one seeded history of 10-80 steps against one real stack with two NICs, three local addresses (two on NIC 1, one on NIC 2), an "
          "unassigned address, optionally promiscuous mode or AddSubnet on NIC 1, three ports and three remote (address, port) pairs: UDP sockets bound to "
-         "wildcard/specific addresses or connected, TCP listeners (wildcard/specific), TCP connections created by real handshakes with the scripted peer, "
-         "closes in any order, interleaved with UDP datagrams and in-window TCP data segments on either NIC whose 4-tuples are aimed at, or one coordinate "
+         "wildcard/specific addresses or connected (optionally bound or connected through an explicit interface, or bound to the wildcard and then "
+         "connected), TCP listeners (wildcard/specific), TCP connections created by real handshakes with the scripted peer (a SYN whose best match is an "
+         "open listener must draw SYN|ACK), endpoints registered directly with the demultiplexer in all four binding shapes on a port of their own (so "
+         "wildcard and specific bindings of one port coexist, which the port manager forbids for sockets), closes in any order, close-and-reopen of the "
+         "same binding with no settling in between (the closed listener's goroutine is still winding down), interleaved with UDP datagrams and in-window TCP data segments on either NIC whose 4-tuples are aimed at, or one coordinate "
          "beside, an open socket; after every packet every open socket is read; non-trivial = at least one packet reached its socket; distinct = "
          "distinct event-log hash",
-    expected_probes=["delivered_to_winner", "to_address_not_owned", "tcp_no_match_reset", "tcp_connections", "segment_for_closing_connection"],
+    expected_probes=["delivered_to_winner", "to_address_not_owned", "tcp_no_match_reset", "tcp_connections", "segment_for_closing_connection",
+                     "closed_and_reopened_at_once", "directly_registered_endpoints", "sockets_bound_to_an_interface",
+                     "sockets_connected_through_an_interface", "wildcard_bound_then_connected"],
     real=NET_REAL, stubs=NET_STUBS + PEER_STUB, assumptions=NET_ASSUME + [
-        "a TCP connection the application has closed still occupies its 4-tuple while its closing exchange runs; what answers a segment for it is not asserted"],
+        "a TCP connection the application has closed still occupies its 4-tuple while its closing exchange runs; what answers a segment for it is not asserted",
+        "a socket tied to an interface (bound or connected with an explicit NIC) matches only packets arriving on that interface",
+        "whether a UDP socket bound to the wildcard address and then connected still hears its peer on the other local addresses is not asserted "
+        "(both readings of 'its addresses' are defensible); such packets are injected but not judged",
+        "addresses are not added or removed while sockets are open"],
     hang_is_violation=True,
     level_text="seeded search over socket sets and inbound 4-tuples against a reference function written from the statement (destination address owned by "
                "the receiving interface, or promiscuous/subnet; then connected before bound, specific local address before wildcard): exactly the winner "
